@@ -192,6 +192,7 @@ class AudioIO(object):
     import pyaudio
     self._pa = pa = pyaudio.PyAudio()
     self._threads = []
+    self._started = [] # Every thread that might still be alive (for joining)
     self.wait = wait # Wait threads to finish at end (constructor parameter)
     self._recordings = []
 
@@ -252,6 +253,8 @@ class AudioIO(object):
           else:
             thread.stop()
           thread.join()
+        for thread in self._started: # Some might be leaving its "run" method
+          thread.join()              # after removing itself from "_threads"
 
         # Closes all recording RecStream instances
         while self._recordings:
@@ -283,6 +286,8 @@ class AudioIO(object):
                                     "halting the AudioIO manager object")
       new_thread = AudioThread(self, audio, **kwargs)
       self._threads.append(new_thread)
+      self._started = [th for th in self._started if th.is_alive()]
+      self._started.append(new_thread)
       new_thread.start()
       return new_thread
 
